@@ -93,6 +93,7 @@ func loadAll(opt *Options) (*Universe, error) {
 	if err := u.loadDeps(filepath.Join(opt.Verif, "contracts", "deps")); err != nil {
 		return nil, err
 	}
+	u.Notes = u.resolveSameAs()
 	return u, nil
 }
 
@@ -160,7 +161,7 @@ func runCheck(prop string, opt *Options) int {
 		if opt.Only != "" && !strings.Contains(c.Key, opt.Only) {
 			continue
 		}
-		results = append(results, u.verifyContract(c))
+		results = append(results, u.verifyContractAll(c)...)
 	}
 	for _, l := range u.Lemmas {
 		if hasProp(l.Props, prop) && !l.Axiom {
